@@ -218,7 +218,19 @@ func finish(r *report.Run, us []*unit, results []*unitResult, deaths []deathRec,
 	}
 	subsumed := 0
 	var keys []string
+	// the same failure on several channel ids is one failure: keep the channel with the most node states
+	best := map[string]*vgroup{}
+	for _, g := range groups {
+		k := fmt.Sprintf("%s|%s|%s|%s|%s", g.Reactor, g.Msg, g.Field, g.Class, g.Oracle)
+		if b := best[k]; b == nil || len(g.States) > len(b.States) || (len(g.States) == len(b.States) && g.Ch < b.Ch) {
+			best[k] = g
+		}
+	}
 	for k, g := range groups {
+		if best[fmt.Sprintf("%s|%s|%s|%s|%s", g.Reactor, g.Msg, g.Field, g.Class, g.Oracle)] != g {
+			subsumed++
+			continue
+		}
 		if g.Kind == "resigned" && strings.HasSuffix(g.Class, "(signed)") && !strings.HasPrefix(g.Oracle, "process-death") {
 			// the same mutation fails without a valid signature too: one defect, one signature
 			base := strings.TrimSuffix(g.Class, "(signed)")
